@@ -185,3 +185,51 @@ def c17_constants(reg, opts):
         out.append(gres('constants.%s' % k, got == v and type(got) is type(v), 'got %r, protocol says %r' % (got, v),
                         probe='pamqp.constants.%s' % k))
     return out
+
+
+@ground('C13.name-character-class')
+def c13_regex(reg, opts):
+    """A6: the compiled DOMAIN_REGEX patterns denote exactly the specified
+    character class.  Structure (anchored star over one character set) is read
+    from CPython's own regex parser; the set is then compared with the
+    specification on every one of the 0x110000 code points."""
+    import re
+    from pamqp import constants
+    try:
+        from re import _parser as sre_parse, _constants as sre_c
+    except ImportError:  # python < 3.11
+        import sre_parse
+        import sre_constants as sre_c
+    out = []
+    for domain, cls_path, field in (('exchange-name', 'pamqp.commands.Exchange.Declare', 'exchange'),
+                                    ('queue-name', 'pamqp.commands.Queue.Declare', 'queue')):
+        pat = constants.DOMAIN_REGEX.get(domain)
+        p = "constants.DOMAIN_REGEX['%s']" % domain
+        if pat is None:
+            out.append(gres(p + '#present', False))
+            continue
+        tree = list(sre_parse.parse(pat.pattern, pat.flags))
+        ops = [t[0] for t in tree]
+        shape = (len(tree) == 3 and ops[0] == sre_c.AT and ops[2] == sre_c.AT and ops[1] == sre_c.MAX_REPEAT
+                 and tree[1][1][0] == 0 and tree[1][1][1] == sre_c.MAXREPEAT and len(tree[1][1][2]) == 1
+                 and tree[1][1][2][0][0] in (sre_c.IN, sre_c.LITERAL))
+        out.append(gres(p + '#anchored-star-over-one-character-set', shape, 'parsed: %r' % (tree,)))
+        bad = None
+        for cp in range(0x110000):
+            ch = chr(cp)
+            if (pat.fullmatch(ch) is not None) != (ch in tables.NAME_CHARSET):
+                bad = ch
+                break
+        # the empty string and a two-character sample, to tie `*` down
+        extra = pat.fullmatch('') is not None and pat.fullmatch('a/') is not None and pat.fullmatch('a\n') is None
+        r = gres(p + '#same-language-as-the-specified-class-on-all-code-points', bad is None and extra,
+                 'first differing character: %r (U+%04X)' % (bad, ord(bad)) if bad else '')
+        if bad is not None:
+            from pyvc import replay
+            job = {'target': cls_path, 'kwargs': {field: bad}}
+            obs = replay.native_calls([job])[0]
+            r.replay = {'confirmed': True, 'args': {field: bad},
+                        'expected': 'ValueError' if bad not in tables.NAME_CHARSET else 'accepted',
+                        'observed': obs, 'job': job}
+        out.append(r)
+    return out
